@@ -584,6 +584,9 @@ def u_visit_for(c):
         if ok:
             fin = [e.name for e in PE.events(body[0].finalbody)]
             c.prove(f"{label}/#endloop-in-finally-once-per-variable", sorted(fin) == sorted(f"#endloop_{v}" for v in ends), only=["C06"])
+            # begin/end pairs are properly nested: the end markers of one iteration come in the REVERSE order of its begin markers
+            # (and both in an order fixed by the source, not by the iteration order of a set)
+            c.prove(f"{label}/#endloop-markers-mirror-the-#loop-markers", fin == [f"#endloop_{v}" for v in reversed(ends)], note=f"{fin}", only=["C06"])
             inner = body[0].body
     else:
         inner = body
@@ -591,6 +594,7 @@ def u_visit_for(c):
         names = [e.name for e in PE.events(inner)]
         want_front = sorted(f"#loop_{v}" for v in loops)
         c.prove(f"{label}/#loop-first-once-per-variable", sorted(names[:len(loops)]) == want_front, only=["C06"])
+        c.prove(f"{label}/#loop-markers-in-target-order", names[:len(loops)] == [f"#loop_{v}" for v in loops], note=f"{names[:len(loops)]}", only=["C06"])
         tgt = [e.sig() for e in PE.events(inner)[len(loops):]]
         exp = [ev_sig(*e) for e in tevs if dec.get((e[0], None))]
         c.prove(f"{label}/target-bindings-reported-in-order", tgt == exp, note=f"{tgt} vs {exp}", only=["C02"])
